@@ -101,6 +101,16 @@ pub fn fastq_text(recs: &[Rec], bad_at: Option<usize>, bad_kind: u64) -> Vec<u8>
             (true, _) => ('>', '+', qual),
             _ => ('@', '+', qual),
         };
+        if bad && bad_kind == 4 {
+            // truncated file: the input ends inside the header line of record i
+            out.extend_from_slice(format!("@{} d{}", r.id, i).as_bytes());
+            return out;
+        }
+        if bad && bad_kind == 5 {
+            // truncated file: the input ends inside the sequence line of record i
+            out.extend_from_slice(format!("@{} d{}\n{}", r.id, i, &r.seq[..r.seq.len() / 2]).as_bytes());
+            return out;
+        }
         out.extend_from_slice(format!("{}{} d{}\n{}\n{}\n{}\n", start, r.id, i, r.seq, sep, qual).as_bytes());
     }
     out
